@@ -19,8 +19,8 @@ func VerifC10_reporter_stake() {
 	rep := ndAddr("reporter")
 	selA := ndAddr("selectorA")
 	ndAssume(string(rep) != string(selA))
-	// three validators, listed by descending power; statuses arbitrary; exchange rate 1 (tokens = shares) quick,
-	// 3 tokens per 4 shares for the second validator in thorough
+	// three validators, listed by descending power; statuses arbitrary; exchange rate 1 (tokens = shares), 3 tokens per 4 shares
+	// for the second validator
 	valAddrs := []sdk.ValAddress{sdk.ValAddress(ndAddr("val0")), sdk.ValAddress(ndAddr("val1")), sdk.ValAddress(ndAddr("val2"))}
 	ndAssume(string(valAddrs[0]) != string(valAddrs[1]) && string(valAddrs[0]) != string(valAddrs[2]) && string(valAddrs[1]) != string(valAddrs[2]))
 	sk := &vStaking{bonded: math.NewInt(1)}
@@ -30,7 +30,7 @@ func VerifC10_reporter_stake() {
 		st := statuses[ndPick(nm("status", i), 3)]
 		bondedV[i] = st == stakingtypes.Bonded
 		tokens, shares := math.NewInt(5000000), math.LegacyNewDec(5000000)
-		if i == 1 && ndTier() > 0 {
+		if i >= 1 {
 			tokens, shares = math.NewInt(3000000), math.LegacyNewDec(4000000)
 		}
 		sk.vals = append(sk.vals, stakingtypes.Validator{OperatorAddress: valAddrs[i].String(), Status: st, Tokens: tokens, DelegatorShares: shares})
@@ -87,7 +87,7 @@ func VerifC10_reporter_stake() {
 		active := string(d.who) == string(rep) || aActive
 		if d.present && active && bondedV[d.val] {
 			tokens := d.shares
-			if d.val == 1 && ndTier() > 0 {
+			if d.val >= 1 {
 				tokens = d.shares.MulRaw(3).QuoRaw(4)
 			}
 			want = want.Add(tokens)
